@@ -16,7 +16,7 @@ Drift(name, ok, info) == IF ok THEN TRUE ELSE PrintT(<<"DRIFT", name, Rec.id, in
 Stat(name, n) == PrintT(<<"STAT", name, n>>)
 
 Canonical == Rec.canonical = 1
-ObsD(term) == SeqBag([ i \in DOMAIN term.D |-> <<term.D[i][1], term.D[i][2], term.D[i][3], SeqOfSets(term.D[i][4])>> ])
+ObsD(term) == SeqBag([ i \in DOMAIN term.D |-> <<term.D[i][1], term.D[i][2], term.D[i][3], SeqOfSets(term.D[i][4]), term.D[i][5], term.D[i][6]>> ])
 ObsCG(term) == SeqBag(term.CG)
 ObsTerm(term) == [D |-> ObsD(term), CG |-> IF Canonical THEN ObsCG(term) ELSE <<>>]
 ObsKey(a) == <<SetOfSets(a.top), a.hel2>>
